@@ -238,6 +238,9 @@ func Core() []string {
 	for _, s := range ScopeExit() {
 		add(s)
 	}
+	for _, s := range KeywordIdents() {
+		add(s)
+	}
 	// constants of every kind in one program (for dump/load)
 	add(`def k "nm" { i = 42; n = 0 - 42; big = 9223372036854775807; f = 2.5; g = 1e21; h = 5e-324; s = "str"; e = ""; t = true; u = false; z = nil; def in { q = i } }; bind k -> struct`)
 	coreCache = out
@@ -393,6 +396,9 @@ func ScaledFamilies(big bool) []Scaled {
 	// block nesting
 	for _, n := range []int{15, 16, 17, 18} {
 		add(fmt.Sprintf("nest-%d", n), rep("def b { ", n)+"x=1"+rep(" }", n))
+		// the deep chain is not the last definition: shallower and equally deep ones follow, and run twice
+		chain := func(t string, d int) string { return rep("def "+t+" { ", d) + "x=1" + rep(" }", d) + "\n" }
+		add(fmt.Sprintf("nestthen-%d", n), chain("b", n)+"def after { y = 2 }\n"+chain("c", 16)+chain("d", 2)+"bind after -> struct")
 	}
 	// jump distance: the right operand of and/or is `1+1+...` (ONE ADD = 2 bytes per term, no new
 	// constants), started with `1` (1 byte) or `2` (CONST = 2 bytes) to reach even and odd distances:
@@ -443,6 +449,23 @@ func ScopeExit() []string {
 				"def o {\nvar "+v+" = 70\n"+blk+"g = "+v+"\n"+blk+"}",
 				blk+"def c {\n"+v+" = 4\nh = "+v+"\n}",
 				"def o {\ndef m {\n"+blk+"}\n"+v+" = 1\ng = "+v+"\n}",
+			)
+		}
+	}
+	return out
+}
+
+// KeywordIdents: identifiers that begin with a keyword (or a contextual word of bind) and go on with an
+// underscore, a letter or a digit, in every role an identifier can have.
+func KeywordIdents() []string {
+	var out []string
+	for _, kw := range []string{"var", "def", "eval", "print", "bind", "true", "false", "nil", "not", "and", "or", "first", "struct"} {
+		for _, suf := range []string{"_", "_x", "_1", "x", "1", "_" + kw} {
+			k := kw + suf
+			out = append(out,
+				"var "+k+" = 1; print "+k+" + 1; "+k+" = 5; print "+k,
+				"def b { "+k+" = 3; g = "+k+" * 2; print "+k+" }",
+				"def "+k+" \""+k+"\" { x = 1; t = TYPE }\nbind "+k+" -> struct",
 			)
 		}
 	}
